@@ -616,3 +616,16 @@ pub fn sample_one<T: Debug>(s: &BoxedStrategy<T>, seed: u64) -> T {
     let mut runner = TestRunner::new_with_rng(Config::default(), rng_for(seed, "sample", 0));
     s.new_tree(&mut runner).unwrap().current()
 }
+
+/// Entry point for coverage-guided fuzz targets: run one decoded case through the property's check in exploration
+/// mode (listed known findings tolerated) and return the first violation that is not listed.
+pub fn fuzz_one<P: Prop>(p: &P, case: &P::Case) -> Option<Violation> {
+    let known: BTreeSet<String> = KNOWN.get_or_init(load_known).known.iter().filter(|k| k.property == p.id()).map(|k| k.signature.clone()).collect();
+    let r = guarded_check(p, case, true);
+    unknown(&r, &known).cloned()
+}
+
+/// Write a replay file for a case found by a fuzz target.
+pub fn save_fuzz_replay<P: Prop>(p: &P, case: &P::Case, v: &Violation) -> PathBuf {
+    write_replay(p, case, v, true, 0)
+}
